@@ -4,6 +4,44 @@
 #![allow(unused)]
 
 #[cfg(kani)]
+mod bulk {
+    //! K-bulk: the raw little-endian writer may only be used for the eleven fixed-width primitives, with the
+    //! element width of the Rust type. Loop-free, one harness per type family => COMPLETE for the listed types.
+    use candid::types::verif_hooks::fixed_primitive_byte_size_of as w;
+    use std::mem::size_of;
+
+    #[kani::proof]
+    fn bulk_width_primitives() {
+        assert!(w::<bool>() == Some(size_of::<bool>()));
+        assert!(w::<u8>() == Some(size_of::<u8>()));
+        assert!(w::<i8>() == Some(size_of::<i8>()));
+        assert!(w::<u16>() == Some(size_of::<u16>()));
+        assert!(w::<i16>() == Some(size_of::<i16>()));
+        assert!(w::<u32>() == Some(size_of::<u32>()));
+        assert!(w::<i32>() == Some(size_of::<i32>()));
+        assert!(w::<f32>() == Some(size_of::<f32>()));
+        assert!(w::<u64>() == Some(size_of::<u64>()));
+        assert!(w::<i64>() == Some(size_of::<i64>()));
+        assert!(w::<f64>() == Some(size_of::<f64>()));
+    }
+
+    #[kani::proof]
+    fn bulk_width_wrappers_are_not_raw() {
+        // types that share a primitive's Candid type but not its memory layout must take the element-wise path
+        assert!(w::<Box<u64>>().is_none());
+        assert!(w::<Box<u16>>().is_none());
+        assert!(w::<std::rc::Rc<u32>>().is_none());
+        assert!(w::<std::sync::Arc<i64>>().is_none());
+        assert!(w::<&'static u8>().is_none());
+        assert!(w::<std::cell::RefCell<u8>>().is_none());
+        assert!(w::<Option<u8>>().is_none());
+        assert!(w::<u128>().is_none());
+        assert!(w::<candid::Nat>().is_none());
+        assert!(w::<String>().is_none());
+    }
+}
+
+#[cfg(kani)]
 mod twins {
     use candid::Int;
 
